@@ -109,8 +109,10 @@ def run(tier, seed):
                             meta.append((CN, '^' * (j - 1) + '&' * (k - 1) + sval))
                             model.append('RESC %s %s %s' % (v, F, vlib.hexs(x)))
             n = len(crows)
-            cands = ['%s_%d' % (F, n + 2), '%s_1_99' % F, '%s_a' % F, '%s_1_b' % F, 'FOO_1', '%s_%d' % (D, n + 2), 'ZZZ_1', F + '_1_1_1', 'X' + F + '_1']
-            for x in (cands if isfull else rng.sample(cands, 3)):
+            cands = ['%s_%d' % (F, n + 2), '%s_1_99' % F, '%s_a' % F, '%s_1_b' % F, 'FOO_1', '%s_%d' % (D, n + 2), 'ZZZ_1', F + '_1_1_1', 'X' + F + '_1',
+                     # positions that do not exist: zero and below (seed C14-j counted them from the end)
+                     '%s_0' % F, '%s_-1' % F, '%s_1_0' % F, '%s_-%d' % (F, n)]
+            for x in (cands if isfull else rng.sample(cands, 5)):
                 neg.append((v, 'F', F, x))
                 negmodel.append('RESC %s %s %s' % (v, F, vlib.hexs(x)))
     # fields of a base datatype: their one component is named after the datatype (`field.si`, `field.st`); every letter case and the
